@@ -1491,6 +1491,8 @@ class Interp:
             return PyConst('module', 'inspect')
         if name == 'dataclasses':
             return PyConst('module', 'dataclasses')
+        if name in ('sys', 'time') and any(k.startswith(name + '.') for k in getattr(self.w.registry, 'extern_funcs', {})):
+            return PyConst('module', name)
         if self.w.exc.known(name):
             return PyConst('excclass', self.w.exc.resolve(name))
         if name in BUILTINS:
@@ -1763,6 +1765,8 @@ class Interp:
             if isinstance(a, int) and isinstance(b, int) and not isinstance(a, bool):
                 return a + b
             return self.as_int(a, n) + self.as_int(b, n)
+        if isinstance(a, Opaque) and a.kind == 'any' or isinstance(b, Opaque) and b.kind == 'any':
+            return Opaque('any', self.p.fresh('arith', z3.IntSort()))  # arithmetic on a value nothing is known about (floats, clocks)
         if isinstance(op, ast.Sub):
             if isinstance(a, int) and isinstance(b, int) and not z3.is_expr(a) and not z3.is_expr(b):
                 return a - b
@@ -1795,6 +1799,8 @@ class Interp:
             if isinstance(a, (PyConst, PyTuple)) and isinstance(b, (PyConst, PyTuple)):
                 items = (a.items if isinstance(a, PyTuple) else [a]) + (b.items if isinstance(b, PyTuple) else [b])
                 return PyTuple(items)
+        if isinstance(op, ast.Pow) and isinstance(a, int) and isinstance(b, int) and not isinstance(a, bool) and 0 <= b <= 64:
+            return a ** b
         self.oos(f'binary operator {type(op).__name__}', n)
 
     # ---- array-backed lists ----------------------------------------------------------
@@ -2530,6 +2536,9 @@ class Interp:
                 return PyConst('builtin', f'dataclasses_{attr}')
             self.oos(f'dataclasses.{attr}', n)
         if c.kind == 'module':
+            ext = getattr(self.w.registry, 'extern_funcs', {}).get(f'{c.name}.{attr}')
+            if ext is not None:
+                return PyConst('builtin', ext)
             return self.global_name(attr, n)
         if c.kind in ('class', 'record'):
             # static / class methods, e.g. PosLine.build_line_cache, RuleInfo.new
@@ -2560,6 +2569,9 @@ class Interp:
             return BoundMeth(o, attr, PyConst('ufmethod', f'{fname}:{rs}'))
         if kind == 'method':
             return BoundMeth(o, attr, PyConst('opaquemethod', sortname))
+        if kind == 'attrcall':
+            # a method without parameters whose result is a function of the object: obj.m() is opaque_value(...)
+            return BoundMeth(o, attr, PyConst('attrcall', sortname, (o.kind, attr, o.ident)))
         return self.opaque_value(sortname, f'{o.kind}.{attr}', o.ident)
 
     def opaque_value(self, sortname, fname, ident):
@@ -2657,6 +2669,11 @@ class Interp:
         if isinstance(fn, FuncVal):
             c = self.w.registry.generic[fn.contract]
             nparams = len(c.sig) - 1
+            if any(isinstance(a, StarV) for a in args) or '**' in kwargs:
+                # f(x, *fixed, **fixed): the extra arguments are part of what the function value stands for
+                self.w.assumptions.add(f'{fn.contract}: extra *args / **kwargs passed along with the payload are fixed per call site and folded into the function value')
+                args = [a for a in args if not isinstance(a, StarV)]
+                kwargs = {k: v for k, v in kwargs.items() if k != '**'}
             if len(args) > nparams:
                 args = args[len(args) - nparams:]  # bound-method style call f(instance, ctx)
             return self.call_contract(c, None, [fn, *args], kwargs, n)
@@ -2960,7 +2977,7 @@ BUILTINS = {
     'len', 'isinstance', 'bool', 'int', 'str', 'min', 'max', 'range', 'all', 'any', 'getattr', 'hasattr',
     'callable', 'next', 'iter', 'enumerate', 'abs', 'repr', 'sorted', 'hash', 'issubclass', 'super', 'print', 'id',
     'ord', 'chr', 'zip', 'sum', 'old', 'int_ok', 'uint_ok', 'float_ok', 'implies', 'type', 'dict_with', 'dict_get',
-    'dict_has', 'seq_eq', 'out_ok', 'out_frame', 'out_ret', 'out_cut', 'out_fail_frame', 'exc_inside', 'exc_is', 'boundcall', 'top_only', 'store', 'o_none', 'o_ok', 'same_func', 'ismethod', 'is_func', 'ast_walk', 'format', 'is_ok', 'is_err', 'ok_res', 'is_failure', 'grown', 'memo_ok', 'outcome_ok', 'submap', 'forall_keys', 'exists_key', 'is_suffix', 'dataclasses_replace', 'dataclasses_is_dataclass', 'strval',
+    'dict_has', 'seq_eq', 'out_ok', 'out_frame', 'out_ret', 'out_cut', 'out_fail_frame', 'exc_inside', 'exc_is', 'exc_cls', 'exc_id', 'err_cls', 'err_id', 'boundcall', 'top_only', 'store', 'o_none', 'o_ok', 'same_func', 'ismethod', 'is_func', 'ast_walk', 'format', 'is_ok', 'is_err', 'ok_res', 'is_failure', 'grown', 'memo_ok', 'outcome_ok', 'submap', 'forall_keys', 'exists_key', 'is_suffix', 'dataclasses_replace', 'dataclasses_is_dataclass', 'strval',
 }
 
 
